@@ -581,7 +581,7 @@ public:
       c.writer = r.chance(0.3) ? 1 : 0;
       c.initial_snapshot = r.chance(0.3);
       c.temperature = r.chance(0.3);
-      c.trackers = r.chance(0.15) && c.nsub[0] * c.nsub[1] * c.nsub[2] > 0;
+      c.trackers = r.chance(0.2) && c.nsub[0] * c.nsub[1] * c.nsub[2] > 0;
       if (r.chance(0.1)) {
         c.task_plot = true;
         c.packets = std::min< long >(c.packets, 333);
@@ -600,6 +600,8 @@ public:
     // (drawn last so that the other fields of existing seeds do not change)
     if ((prop == "C01" || prop == "C12") && !c.task_plot && c.threads > 1)
       c.tight_pools = r.chance(0.35);
+    if (c.trackers && r.chance(0.8))
+      c.tracker_variant = (int)r.range(1, 9);
     return c.to_json();
   }
 
@@ -828,9 +830,17 @@ public:
         c.queue = c.ntasks;
         tight = true;
       } else if (!fin0) {
-        // the case does not even finish with ample pools: let the normal
-        // run below report it
+        // The case does not finish even with ample pools. That is for the
+        // runs without the reduced-pool knob to report (two thirds of the
+        // swarm, same case space); a second run in this process image, on top
+        // of the abandoned frames of the first, would not be trustworthy.
+        out.notes.push_back("measuring run for reduced pools did not finish: "
+                            "case skipped");
         out.restart_worker = true;
+        out.hash = 0x9001;
+        out.stats = Json::object();
+        out.signature = Json::object();
+        return out;
       }
     }
     remove_snapshots(dir);
